@@ -67,8 +67,11 @@ fn write_step(dir: &Path, zones: &[ZoneSpec], broken: bool, port: u16) {
                 std::fs::write(
                     &p,
                     format!(
-                        "{n} 3600 {c} SOA ns.invalid. admin.invalid. {s} 3600 600 86400 3600\n{n} 3600 {c} NS ns.invalid.\n",
-                        n = z.name, c = c, s = st[1]
+                        "{n} 3600 {c} SOA ns.invalid. admin.invalid. {s} 3600 600 86400 3600\n{n} 3600 {c} NS ns.invalid.\n{w}",
+                        n = z.name, c = c, s = st[1],
+                        // every third valid file also carries a validation WARNING (in-zone mail exchanger
+                        // without an address): it must still be loaded
+                        w = if st[2].parse::<u64>().unwrap() % 3 == 0 { format!("{n} 3600 {c} MX 10 mail.{n}\n", n = z.name, c = c) } else { String::new() }
                     ),
                 )
                 .unwrap();
@@ -79,10 +82,12 @@ fn write_step(dir: &Path, zones: &[ZoneSpec], broken: bool, port: u16) {
                 if mt % 2 == 0 {
                     std::fs::write(&p, "this is ( not a zone file\n").unwrap();
                 } else {
-                    // parses, but fails validation (no NS record)
+                    // parses, but fails validation (no NS record: an error); every other such file also has a
+                    // WARNING (in-zone mail exchanger without an address): an error plus a warning is still a failure
+                    let warn = if mt % 4 == 1 { format!("{n} 3600 {c} MX 10 mail.{n}\n", n = z.name, c = class_text(z.class)) } else { String::new() };
                     std::fs::write(
                         &p,
-                        format!("{} 3600 {} SOA ns.invalid. admin.invalid. 1 3600 600 86400 3600\n", z.name, class_text(z.class)),
+                        format!("{} 3600 {} SOA ns.invalid. admin.invalid. 1 3600 600 86400 3600\n{}", z.name, class_text(z.class), warn),
                     )
                     .unwrap();
                 }
